@@ -5,6 +5,7 @@ import (
 	"fmt"
 	"sort"
 	"strings"
+	"time"
 
 	"verif/harness/vkit"
 )
@@ -71,6 +72,27 @@ func (w *World) signature() string {
 		parts = append(parts, fmt.Sprintf("%d[%s]", i, strings.Join(hs, ",")))
 	}
 	return fmt.Sprintf("n=%d d=%d %s", len(w.Shards), w.Desired, strings.Join(parts, " "))
+}
+
+// someShardOnlyHandsOver: some shard holds targets and all of them are in_transfer.
+func (w *World) someShardOnlyHandsOver() bool {
+	perShard := map[int][2]int{}
+	for _, hs := range w.holders() {
+		for i, st := range hs {
+			n := perShard[i]
+			n[0]++
+			if st.State == "in_transfer" {
+				n[1]++
+			}
+			perShard[i] = n
+		}
+	}
+	for _, n := range perShard {
+		if n[0] > 0 && n[0] == n[1] {
+			return true
+		}
+	}
+	return false
 }
 
 // stuck lists what keeps the world from being converged (empty = converged predicate holds).
@@ -152,6 +174,10 @@ func (w *World) phase() string {
 	return "idle"
 }
 
+// MidIdle is the max-idle-time of Idle "mid": longer than a cycle of the simulation takes (milliseconds), shorter than
+// the pause the run makes while a shard is handing all of its targets over.
+const MidIdle = 200 * time.Millisecond
+
 // Bound is the number of settle rounds within which a run must be converged.
 func Bound(maxShards int) int { return 20 + 10*(maxShards+1) }
 
@@ -198,10 +224,19 @@ func RunCase(c *Case, prop string, judgeHandOver bool) *Result {
 		}
 	}
 
+	drainPauses := 0
 	cycleWithOracles := func(phase string) {
 		before := w.holders()
 		w.ApplyScale(c.NewShardDelay)
+		if c.Idle == "mid" && drainPauses < 2 && w.someShardOnlyHandsOver() {
+			// the hand-over of a shard that is being drained takes longer than max-idle-time
+			drainPauses++
+			res.class("pause-longer-than-max-idle-time-during-a-drain")
+			time.Sleep(MidIdle + 50*time.Millisecond)
+		}
+		cycleStart := time.Now()
 		rec := w.Cycle()
+		cycleTook := time.Since(cycleStart)
 		if rec == nil || w.Crash != "" {
 			return
 		}
@@ -244,6 +279,37 @@ func RunCase(c *Case, prop string, judgeHandOver bool) *Result {
 			}
 			if len(rec.Posts[d.Shard]) > 0 {
 				res.add("C08/loop/update-sent-to-out-of-sync-shard/"+d.Kind, "cycle %d: shard %d runs a configuration that differs in its %s, yet it was sent target updates %v", len(w.Cycles), d.Shard, d.Kind, rec.Posts[d.Shard])
+			}
+		}
+		// C07 in the closed loop: a shard whose (real) sidecar holds targets before and after the cycle - in whatever
+		// state, also when all of them are being handed over - is not cut off by any scale request of the cycle
+		if int32(rec.N) <= c.Max {
+			last, heldAtStart := -1, -1
+			for i := 0; i < rec.N && i < len(rec.Before) && i < len(rec.After); i++ {
+				if len(rec.Before[i]) > 0 && len(rec.After[i]) > 0 {
+					last = i
+				}
+			}
+			// with a max-idle-time that is longer than this cycle took (or scale-down off) a shard that held targets
+			// when the cycle began has not been idle for longer than max-idle-time at any point of the cycle
+			if c.Idle == "off" || c.Idle == "long" || (c.Idle == "mid" && cycleTook < MidIdle) {
+				for i := 0; i < rec.N && i < len(rec.Before); i++ {
+					if len(rec.Before[i]) > 0 {
+						heldAtStart = i
+					}
+				}
+				for _, s := range rec.Scales {
+					if int(s) < heldAtStart+1 {
+						res.add("C07/loop/scale-below-shard-that-held-targets-when-the-cycle-began", "cycle %d (took %v, max-idle-time %q): shard %d of %d held %v when the cycle began, yet scale %d was requested (requests of the cycle: %v)", len(w.Cycles), cycleTook, c.Idle, heldAtStart, rec.N, rec.Before[heldAtStart], s, rec.Scales)
+						break
+					}
+				}
+			}
+			for _, s := range rec.Scales {
+				if int(s) < last+1 {
+					res.add("C07/loop/scale-below-shard-holding-targets", "cycle %d: shard %d of %d holds targets before (%v) and after (%v) the cycle, yet scale %d was requested (requests of the cycle: %v)", len(w.Cycles), last, rec.N, rec.Before[last], rec.After[last], s, rec.Scales)
+					break
+				}
 			}
 		}
 		// C03 clause: all in sync and an eligible target left unscraped => scale-up requested
